@@ -29,6 +29,7 @@ func init() {
 		Rule{ID: "R11a", Doc: "the domain trie's nil-marker maps are read and written consistently (a rule condition that silently never matches sends the query to a later rule; shared with C11)", Floor: 4, AllVariants: true, Run: r11a},
 		Rule{ID: "R11b", Doc: "the trie's insert and lookup agree on walk direction and on the short/long label threshold (shared with C11)", Floor: 8, AllVariants: true, Run: r11b},
 		Rule{ID: "R20b", Doc: "the forwarded question is not recycled under the refresh goroutine (shared with C20)", Floor: 20, Run: r20b},
+		Rule{ID: "R20e", Doc: "a decoded name has one owner (a double release lets two in-flight questions share one buffer; shared with C20)", Floor: 1, AllVariants: true, Run: r20e},
 	)
 	reg("C17", "Structural necessary conditions of `peers are reached and authenticated as configured`, decided for all paths: "+
 		"(R17a) every field of TlsConfig and UpstreamConfig is read and reaches its effect (InsecureSkipVerify, RootCAs, Certificates, ClientAuth+ClientCAs for verify_client_cert; dial_addr, addr, tls, socket, tag); "+
